@@ -703,6 +703,7 @@ def process_fn(tl, i, d, arg, out, unit):
     # ---- insertions into body (compute positions on the *current* body text)
     inserts = []  # (pos, text, tag)
     loops = rs.find_loops(body, 0, len(body))
+    loop_alias = {}
     # `@LV<n>` in any section text stands for the variable of loop n (`for <ident> in ..`), so that renaming a loop
     # index in the source does not lose the invariant
     def _lv(m):
@@ -719,10 +720,20 @@ def process_fn(tl, i, d, arg, out, unit):
         txt = '\n'.join(ls).rstrip()
         if k == 'loop':
             nloop_sections += 1
-            li = int(a)
-            if li >= len(loops):
-                raise AnchorLoss('%s/%s: loop #%d not found (function has %d loops)' % (unit, qual, li, len(loops)))
-            inserts.append((loops[li][1], '\n' + txt + '\n', 'loop#%d' % li))
+            if a.startswith('~'):
+                # `//@ loop ~<regex>`: the loop whose header matches; a loop that is gone only loses its invariant
+                # (recorded), the function's own obligations then decide
+                hits = [ix for ix, (kw, bo) in enumerate(loops) if re.search(a[1:].strip(), body[kw:bo])]
+                if len(hits) != 1:
+                    out.lost_hints.append({'fn': qual, 'anchor': 'loop ' + a})
+                    continue
+                li = hits[0]
+                loop_alias[a] = li
+            else:
+                li = int(a)
+                if li >= len(loops):
+                    raise AnchorLoss('%s/%s: loop #%d not found (function has %d loops)' % (unit, qual, li, len(loops)))
+            inserts.append((loops[li][1], '\n' + txt + '\n', 'loop#%s' % a))
         elif k == 'top':
             inserts.append((body.index('{') + 1, '\n' + txt + '\n', 'hint-top'))
         elif k in ('before', 'after'):
@@ -787,7 +798,10 @@ def process_fn(tl, i, d, arg, out, unit):
         inserts.append((body.index('{') + 1, '\nassert(false); // CANARY %s/pre\n' % qual, 'canary'))
         for k, a, ls in sections:
             if k == 'loop':
-                inserts.append((loops[int(a)][1] + 1, '\nassert(false); // CANARY %s/loop#%s\n' % (qual, a), 'canary'))
+                if a.startswith('~') and a not in loop_alias:
+                    continue
+                lix = loop_alias[a] if a.startswith('~') else int(a)
+                inserts.append((loops[lix][1] + 1, '\nassert(false); // CANARY %s/loop#%s\n' % (qual, a), 'canary'))
 
     # ---- emit
     callees = sorted(set(m.group(1) for m in re.finditer(r'\b([A-Za-z_]\w*)\s*(?:::\s*<[^>()]*>\s*)?[(!]', raw_body))
